@@ -150,6 +150,18 @@ def unitary_family(k, wordlen):
                 if add(V, "orbit"):
                     nxt.append(V)
         frontier = nxt
+    # a beamsplitter embedded on every ordered pair of modes (adjacent or not), alone and followed by a second one:
+    # unitaries whose exact zeros sit in the patterns the nulling routines special-case
+    emb = []
+    for i, j in itertools.permutations(range(k), 2):
+        for th, phv in ((PI / 4, 0.0), (0.3, 0.7)):
+            G = np.eye(k, dtype=complex)
+            c, sn = np.cos(th), np.sin(th)
+            G[i, i], G[i, j], G[j, i], G[j, j] = np.exp(1j * phv) * c, -sn, np.exp(1j * phv) * sn, c
+            emb.append(G)
+            add(G, "embedded-pair")
+    for G1, G2 in itertools.product(emb, repeat=2):
+        add(G2 @ G1, "embedded-pair-product")
     return list(fam.values())
 
 
